@@ -129,4 +129,17 @@ mod verif_kani_month {
         assert!(eq_ci(m.name().as_bytes(), names[n as usize - 1]), "name() is the English month name");
         match Month::from_str(m.name()) { Ok(p) => assert!(p == m, "name parses back"), Err(_) => assert!(false, "name parses back") }
     }
+
+    // bounded: strings of at most 16 bytes holding one multi-byte character at any of the first ten byte offsets (a name prefix followed by
+    // non-ASCII text must be rejected by value: slicing at a suffix length that falls inside the character would panic)
+    // fns: FromStr for Month (bounded, non-ASCII)
+    #[kani::proof]
+    #[kani::unwind(18)]
+    fn vk_month_from_str_multibyte() {
+        let mut buf: [u8; 16] = kani::any();
+        let len = one_multibyte(&mut buf);
+        let s = unsafe { core::str::from_utf8_unchecked(&buf[..len]) };
+        kani::cover!(lower(buf[0]) == b'j' && lower(buf[1]) == b'u' && buf[3] >= 128, "a name prefix followed by a multi-byte character");
+        assert!(Month::from_str(s).is_err(), "no name contains a non-ASCII character: rejected, not a panic");
+    }
 }
